@@ -547,6 +547,23 @@ def task_numeric(tier, seed):
         a = rng.uniform(-1, 1, 3) * L
         b = a + rng.uniform(-3.4, 3.4, 3) * L
         cases.append(("triclinic", a, b, box))
+    # short separations in skewed boxes: every Cartesian component below half the corresponding box edge, where a shortcut
+    # "no wrapping needed" is tempting but wrong for a triclinic cell (a fractional coordinate can still exceed 1/2)
+    for _ in range(ntri * 2):
+        L = rng.uniform(0.5, 20, 3)
+        box = np.diag(L)
+        sk = lambda: float(rng.choice([-1.0, 1.0]) * rng.uniform(0.25, 0.45))
+        box[1, 0] = sk() * L[0]
+        box[2, 0] = sk() * L[0]
+        box[2, 1] = sk() * L[1]
+        a = rng.uniform(-1, 1, 3) * L
+        b = a + rng.uniform(-0.499, 0.499, 3) * L
+        cases.append(("triclinic-short-separation", a, b, box))
+    for L in itertools.product(edges[:4], repeat=3):
+        if rng.random() > (0.3 if tier == "quick" else 1.0):
+            continue
+        a = rng.uniform(-1, 1, 3) * np.array(L)
+        cases.append(("orthorhombic-short-separation", a, a + rng.uniform(-0.499, 0.499, 3) * np.array(L), np.diag(L)))
     out = []
     per = {}
     for kind, a, b, box in cases:
